@@ -166,6 +166,29 @@ def _client_frames(run):
     return [f for f in decode_client_frames(wire) if f[0] != "TRUNCATED"]
 
 
+def e_reconnect(lost, with_on_reconnect, tls=False):
+    """delivery across a reconnection: the first connection delivers a message and is lost; run_forever(reconnect=...) connects again;
+    the second connection's opening is announced (on_reconnect, or on_open when no on_reconnect callback is set) BEFORE its messages,
+    every message is delivered once, in order"""
+    a, b = sx.sym_bytes("a", 1), sx.sym_bytes("b", 2)
+    first = {"script": [(1, server_frame(1, 2, a)), (1, "EOF" if lost == "eof" else "RESET")]}
+    second = {"script": [(1, server_frame(1, 2, b)), (1, close_frame(1000))]}
+    names = ["on_open", "on_message", "on_data", "on_error", "on_close"] + (["on_reconnect"] if with_on_reconnect else [])
+    run = AppRun([first, second], url="wss://h.example/x" if tls else "ws://h.example/x", callbacks=names, tls=tls, step_budget=3000)
+    run.run(reconnect=2)
+    sx.require(run.exc is None, "run_forever raised %s" % type(run.exc).__name__)
+    got = [(t[0], t[2]) for t in run.trace if t[0] not in ("on_close", "on_error")]
+    second_open = "on_reconnect" if with_on_reconnect else "on_open"
+    exp = [("on_open", ()), ("on_data", (a, 2, True)), ("on_message", (a,)), (second_open, ()), ("on_data", (b, 2, True)), ("on_message", (b,))]
+    sx.require([g[0] for g in got] == [e[0] for e in exp],
+               "across a reconnection: on_open, first connection's message, then %s BEFORE the second connection's message" % second_open,
+               got=str([g[0] for g in got]), lost=lost, with_on_reconnect=with_on_reconnect)
+    if [g[0] for g in got] == [e[0] for e in exp]:
+        for j, (g, e) in enumerate(zip(got, exp)):
+            sx.require(_args_equal(g[1], e[1]), "callback arguments across a reconnection", j=j, name=e[0])
+    cover("reconnect")
+
+
 def obligations(tier):
     thorough = tier == "thorough"
     hist = []
@@ -218,6 +241,10 @@ def obligations(tier):
                    must_cover=["hist", "tls", "burst"], budget_s=2400 if thorough else 1200, step_budget=40000,
                    kernel=["WebSocketApp.run_forever", "setSock", "read", "_callback", "Dispatcher.read", "SSLDispatcher.read", "SSLDispatcher.select",
                            "WebSocket.recv_data_frame", "WebSocket.connect", "handshake"]),
+        Obligation("E-reconnect", e_reconnect, [dict(lost=l, with_on_reconnect=w, tls=t) for l in ("eof", "reset") for w in (False, True) for t in (False, True)],
+                   bounds="first connection delivers a symbolic message and is lost (end of stream / reset), run_forever(reconnect=2) connects again, the second "
+                          "delivers a symbolic message; with and without an on_reconnect callback; plain and TLS", must_cover=["reconnect"], step_budget=40000,
+                   kernel=["WebSocketApp.run_forever (reconnect)", "setSock", "handleDisconnect", "_callback"]),
         Obligation("E-subset", e_hist, subset, bounds="every subset of {on_open,on_message,on_data,on_ping,on_pong,on_error,on_close} set, 3 histories",
                    must_cover=["hist"], budget_s=1200, step_budget=40000, kernel=["WebSocketApp._callback", "read"]),
         Obligation("E-raise", e_hist, rais, bounds="each callback invocation of 3 histories raising in turn (plain and TLS), with and without an on_error callback", must_cover=["raised"],
